@@ -6,7 +6,7 @@ emit('C08', '''C08 — No datagram from an outsider can crash a node.
    classify a datagram are total functions in the model (C16) and are run against the real parser
    for every length 0..80 and every first byte in every receiver state (py/props/c08.py); a panic
    of the real code shows up there as a `panic` result line the model does not produce.''',
- ['Base','Core','CoreProofs','Conn','PeerCrypto','NodeInfo','Table','Node','NodeProofs','Dissect','DissectProofs','InitProofs','InvProofs'],
+ ['Base','Core','CoreProofs','Conn','PeerCrypto','NodeInfo','Table','Node','NodeProofs','Dissect','DissectProofs','InitProofs','InvProofs','TrustProofs','NextHopProofs','NoPanicProofs'],
  [('object_drops','NodeProofs.v','pc_handle_unverifiable','at every stage of a connection object: ordinary error (never the Panic result), object unchanged, no reply'),
   ('node_no_residue','NodeProofs.v','unverifiable_no_residue','node level, any source (unknown, pending, established): peers, pending handshakes, own addresses, table, schedule unchanged and nothing emitted'),
   ('node_sequence','NodeProofs.v','unverifiable_sequence','and so for every sequence of such datagrams'),
@@ -17,10 +17,17 @@ emit('C08', '''C08 — No datagram from an outsider can crash a node.
   ('fatal_object_deleted','InvProofs.v','pending_fatal_deleted','and the cooperating site at node level: a fatal handshake error from a pending object removes that object in the same step, so a state that violates the invariant never survives (a change that makes the pong decryption error non-fatal breaks exactly this pair)'),
   ('core_never_panics','CoreProofs.v','decrypt_never_panics','the datagram decryption path has no panic result for any datagram (after the fixes of F1 and F2)'),
   ('core_junk','NodeProofs.v','core_decrypt_junk','a datagram that is not a genuine seal leaves the crypto core untouched'),
+  ('reachable_no_panic','NoPanicProofs.v','reachable_no_panic','WHOLE RUNS: as long as everything that ever arrived was well-formed - wf_wire: ECDH public keys of 32 bytes, sealed messages non-empty; unverifiable bytes are (C08_outsider_is_wellformed), and so are verbatim replays of what honest nodes sent - the next datagram, from ANY source and handled by whichever connection or handshake object answers for that source, does not panic: no unwrap of a consumed key, no failed key agreement, no empty-buffer assertion, no index past an empty message.  Invariant QP of every node step: pending handshake objects keep their ECDH key while they wait for a pong (a fatal error deletes them in the same step), the handshake objects of established peers have completed and stay so'),
+  ('outsider_is_wellformed','NoPanicProofs.v','unverifiable_wf','what a party without keys can fabricate is well-formed in that sense'),
+  ('housekeeping_never_panics','NoPanicProofs.v','every_second_never_panics','and the per-second housekeeping of a connection object has no panic result at all'),
   ('frame_never_panics','DissectProofs.v','frame_no_panic','Ethernet dissection never panics'),
   ('packet_never_panics','DissectProofs.v','packet_no_panic','IP dissection never panics'),
  ],
  tail='''
 Example C08_ex : unverifiable (WData (DG 200 [0;0;0;0;0;0;1] Junk 40)) /\\ unverifiable (WData (DShort 0)).
 Proof. split; exact I. Qed.
+
+(* the two handshake messages that lead to the example state of NextHopProofs are well-formed: the premise of C08_reachable_no_panic is satisfiable by a real exchange *)
+Example C08_ex_wf : Forall (fun te => wf_event (snd te)) ex_evs.
+Proof. exact ex_wf. Qed.
 ''')
